@@ -4,6 +4,8 @@ import (
 	"fmt"
 	"go/types"
 	"os"
+	"os/exec"
+	"path/filepath"
 	"sort"
 	"strings"
 
@@ -34,6 +36,18 @@ func LoadProgram(repo string, pkgPaths []string) (*Program, error) {
 		Env: append(os.Environ(), "GOFLAGS=-mod=mod", "GOPROXY=off", "GOTOOLCHAIN=auto", "CGO_ENABLED=1",
 			"GOWORK=off"),
 	}
+	// The flux dependency's libflux package is cgo and asks pkg-config for "flux". When
+	// that fails, go/packages marks libflux AND every importer (tsdb, tsm1, influxql, ...)
+	// IllTyped and ssautil silently drops them. Nothing may depend on a warm build cache:
+	// hand cgo a Cflags-only flux.pc (type-checking needs the header, never the library).
+	if pc, cleanup := fluxPkgConfig(repo, cfg.Env); pc != "" {
+		defer cleanup()
+		v := pc
+		if old := os.Getenv("PKG_CONFIG_PATH"); old != "" {
+			v += string(os.PathListSeparator) + old
+		}
+		cfg.Env = append(cfg.Env, "PKG_CONFIG_PATH="+v)
+	}
 	var pats []string
 	for _, p := range pkgPaths {
 		if p == "." || p == "" {
@@ -56,6 +70,19 @@ func LoadProgram(repo string, pkgPaths []string) (*Program, error) {
 				continue
 			}
 			return nil, fmt.Errorf("package %s: %v", p.PkgPath, e)
+		}
+	}
+	// If cgo of libflux still failed (no pkg-config, no header), its importers carry no
+	// error of their own: IllTyped is inherited. Clear the inherited flag so that SSA is
+	// built for them; a package with errors of its own keeps it and stays out.
+	packages.Visit(pkgs, nil, func(p *packages.Package) {
+		if p.IllTyped && len(p.Errors) == 0 && p.Types != nil && p.TypesInfo != nil {
+			p.IllTyped = false
+		}
+	})
+	for _, p := range pkgs {
+		if p.IllTyped {
+			return nil, fmt.Errorf("package %s: did not type-check (cgo dependency)", p.PkgPath)
 		}
 	}
 	prog, spkgs := ssautil.AllPackages(pkgs, ssa.InstantiateGenerics|ssa.GlobalDebug)
@@ -184,4 +211,28 @@ func (P *Program) FindFunc(key string) []*ssa.Function {
 		}
 	}
 	return out
+}
+
+// fluxPkgConfig writes a throw-away flux.pc that carries only the include path of the
+// flux module's libflux header and returns its directory ("" when the module directory
+// cannot be resolved; the loader then falls back on clearing inherited IllTyped flags).
+func fluxPkgConfig(repo string, env []string) (string, func()) {
+	cmd := exec.Command("go", "list", "-m", "-f", "{{.Dir}}", "github.com/influxdata/flux")
+	cmd.Dir = repo
+	cmd.Env = env
+	out, err := cmd.Output()
+	dir := strings.TrimSpace(string(out))
+	if err != nil || dir == "" {
+		return "", nil
+	}
+	tmp, err := os.MkdirTemp("", "govc-pc-")
+	if err != nil {
+		return "", nil
+	}
+	pc := "Name: flux\nDescription: header-only stub for type-checking\nVersion: 0.0.0\nCflags: -I" + filepath.Join(dir, "libflux", "include") + "\nLibs:\n"
+	if err := os.WriteFile(filepath.Join(tmp, "flux.pc"), []byte(pc), 0o644); err != nil {
+		os.RemoveAll(tmp)
+		return "", nil
+	}
+	return tmp, func() { os.RemoveAll(tmp) }
 }
